@@ -174,6 +174,18 @@ func (fg *FuncGen) ScriptVia(blk, via int) string {
 			continue
 		}
 		if s := fg.segs[b.Index]; s != nil {
+			if via >= 0 && need != nil && b.Index == blk {
+				// only the paths entering through `via`: the block is reached exactly along that edge
+				// (the other predecessors, and the symbols of their branch conditions, are not in this slice)
+				for _, l := range strings.SplitAfter(s.String(), "\n") {
+					if strings.Contains(l, "; @reachdef") {
+						fmt.Fprintf(&out, "(assert (= reach_%d %s))\n", blk, fg.edgeReach(fg.fn.Blocks[via], b))
+						continue
+					}
+					out.WriteString(l)
+				}
+				continue
+			}
 			out.WriteString(s.String())
 		}
 	}
@@ -262,6 +274,9 @@ func (g *Gen) GenFunc(fn *ssa.Function) (*FuncGen, error) {
 		fg.val[p] = []TTerm{{S: name, Sort: srt, T: p.Type()}}
 		if w := g.WF(p.Type(), name); w != "" {
 			fg.emit("(assert %s)", w)
+		}
+		if srt == "Val" {
+			fg.emit("(assert (=> c18.ih (val.finite %s)))", name)
 		}
 		fg.assertOld(name, srt)
 	}
@@ -940,7 +955,7 @@ func (fg *FuncGen) block(b *ssa.BasicBlock) {
 			fg.loopHead(li, fwd, in, rname)
 		} else {
 			fg.emitTo(-1, "(declare-const %s Bool)", rname)
-			fg.emit("(assert (= %s %s))", rname, in)
+			fg.emit("(assert (= %s %s)) ; @reachdef", rname, in)
 			fg.reach[b] = rname
 			fg.curReach = rname
 			// phis
